@@ -94,6 +94,8 @@ struct DebugParse {
 struct IOFileReader {
     // path, uuid
     files: HashMap<uuid::Uuid, (String, String)>,
+    // file that included each file (None for the base file)
+    parents: HashMap<uuid::Uuid, Option<uuid::Uuid>>,
     base_file: Option<uuid::Uuid>,
 }
 
@@ -115,8 +117,27 @@ impl IOFileReader {
     fn new() -> Self {
         IOFileReader {
             files: HashMap::new(),
+            parents: HashMap::new(),
             base_file: None,
         }
+    }
+
+    /// Is `path` the file `file` or one of the files that (transitively)
+    /// included it? Including it again would never end.
+    fn is_being_read(&self, path: &str, file: Option<uuid::Uuid>) -> bool {
+        let Ok(target) = std::fs::canonicalize(path) else {
+            return false;
+        };
+        let mut current = file;
+        while let Some(id) = current {
+            if let Some((ancestor, _)) = self.files.get(&id) {
+                if std::fs::canonicalize(ancestor).is_ok_and(|a| a == target) {
+                    return true;
+                }
+            }
+            current = self.parents.get(&id).copied().flatten();
+        }
+        false
     }
     #[cfg(feature = "fixes")]
     fn apply_fixes(&self, fixes: Vec<Manipulation>) -> Result<(), ManipulationError> {
@@ -266,6 +287,11 @@ impl FileReader for IOFileReader {
                 .to_owned()
         };
 
+        // a file that includes itself, directly or through others
+        if self.is_being_read(&path, parent_file) {
+            return Err(FileReaderError::FileAlreadyRead(path));
+        }
+
         // open file and read it
         let file = match std::fs::read_to_string(path.clone()) {
             Ok(file) => file,
@@ -275,6 +301,7 @@ impl FileReader for IOFileReader {
         // store full path to file
         let uuid = uuid::Uuid::new_v4();
         self.base_file.get_or_insert(uuid);
+        self.parents.insert(uuid, parent_file);
         if self
             .files
             .insert(uuid, (path.clone(), file.clone()))
